@@ -583,6 +583,13 @@ impl VarsWorld {
                             self.note("node_replace_returned_composed_value");
                         } else {
                             self.note("node_replace_returned_other_value");
+                            // "successive deferred writes compose in program order": an exchange operation (`replace`,
+                            // `replace_with`) issued after another deferred write of the same stabilise hands back the value
+                            // it replaced, i.e. the pending one, not the pre-stabilise one (judged since seed C08-g; `get()`
+                            // inside a node function stays unjudged)
+                            if check {
+                                vs.push(v("C08.compose", format!("return-in-node-fn:{site}"), format!("script {:?} in a node function returned {rets:?}, composing in program order from {start} gives {exp_rets:?}", self.prog.script)));
+                            }
                         }
                     }
                 }
